@@ -848,7 +848,7 @@ impl World {
                         self.batch = None;
                         let after = verif_hooks::verif_state(self.mem());
                         let ft = rel(after.hdr_footer_offset, Self::base(&after));
-                        (Ack::Ok, format!("doctor vac={} ftd={ftd} fta={ft} ftb={ft} fto={ft}", *vacuum as u8))
+                        (Ack::Ok, format!("doctor vac={} rt={} rl={} rv={} ftd={ftd} fta={ft} ftb={ft} fto={ft}", *vacuum as u8, *rebuild_time as u8, *rebuild_lex as u8, *rebuild_vec as u8))
                     }
                     Err(e) => return self.dead_step(op, format!("open-after-doctor-failed: {e}")),
                 }
@@ -1299,6 +1299,10 @@ pub fn frame_vs_reference(f: &FrameObs, r: &RefFrame, refm: &RefModel, quiescent
         }
         if let Some(exp) = refm.expected_read(f.id) {
             if f.canon_raw != exp && !(f.status != 'a' && f.canon_raw == "err") {
+                if r.role != 'd' && r.n_chunks > 0 && f.canon_raw == "E" {
+                    return Some(("chunked-put-with-non-document-role-reads-empty".into(),
+                        format!("frame {} (role {}) was put with {} chars of text that the chunker split; its canonical payload reads back empty", f.id, r.role, "2400+")));
+                }
                 return Some(("frame-content-differs-from-acknowledged-call".into(),
                     format!("frame {}: canonical payload token {} expected {}", f.id, f.canon_raw, exp)));
             }
